@@ -53,7 +53,10 @@ Clauses(o, ev, o2, p) ==
       [] ev.e = "quiescent" ->
             (IF /\ p.idle /\ o.closedAt < 0 /\ ~o.gone /\ ~o.reset /\ ~o.tfail /\ o.opened
                 /\ (o.shut \/ ev.now >= Max(p.idleStart, o.lastByteAt) + T(o))
-             THEN <<F("not-closed-when-idle", IF o.shut THEN "shutdown" ELSE p.lastKind)>> ELSE <<>>)
+             THEN <<F("not-closed-when-idle", IF UnreadLeft(o) THEN "request-messages-unread"
+                                              ELSE IF o.shut THEN "shutdown"
+                                              ELSE IF o.cfg.carrier = "h2prior" /\ p.lastKind = "fresh" THEN "fresh-prior-knowledge"
+                                              ELSE p.lastKind)>> ELSE <<>>)
          \o (IF /\ (o.gone \/ o.reset \/ o.closedAt >= 0) /\ AllReturned(o) /\ o.opened
                 /\ ~o.paused
              THEN (IF ev.handler
